@@ -379,7 +379,9 @@ impl FromMeta for syn::Path {
     fn from_expr(expr: &Expr) -> Result<Self> {
         match expr {
             Expr::Lit(lit) => Self::from_value(&lit.lit),
-            Expr::Path(path) => Ok(path.path.clone()),
+            // A qualified path such as `<A as B>::c` is not a `syn::Path`; accepting it would
+            // silently drop the `<A as` part.
+            Expr::Path(path) if path.qself.is_none() => Ok(path.path.clone()),
             Expr::Group(group) => Self::from_expr(&group.expr), // see FromMeta::from_expr
             _ => Err(Error::unexpected_expr_type(expr)),
         }
